@@ -202,12 +202,18 @@ def strategy(tier):
         step = 1 if kind == "space" else 8
         na = draw(wone_of(st.integers(0, 6), st.integers(2, 6), st.integers(3, 6)))
         c = st.integers(0, 13).map(lambda k: k * step)
+
+        def agent_coord(ax):
+            if ext[ax] <= 0:
+                return draw(st.sampled_from([0, 0, 0, 0, step, -step, 3 * step]))
+            far = ext[ax] if kind == "space" else ext[ax] - 8
+            return draw(wone_of(c, c, st.sampled_from([0, far, far, max(far - step, 0)])))
         agents = []
         for _ in range(na):
             if agents and draw(st.integers(0, 4)) == 0:
                 agents.append({"pos": list(draw(st.sampled_from(agents))["pos"])})       # coincident
             else:
-                agents.append({"pos": [draw(c) if ext[ax] > 0 else draw(st.sampled_from([0, 0, 0, 0, step, -step, 3 * step])) for ax in range(3)]})
+                agents.append({"pos": [agent_coord(ax) for ax in range(3)]})
         moves = draw(st.lists(wone_of(
             st.fixed_dictionaries({"a": st.integers(0, 5), "to": st.tuples(c, c, c).map(list)}),
             st.fixed_dictionaries({"a": st.integers(0, 5), "remove": st.just(True)})), max_size=3))
